@@ -302,7 +302,7 @@ struct Ver {
 	val: Vec<u8>,
 }
 
-type Obs = (Vec<Option<Vec<u8>>>, Vec<Vec<(Vec<u8>, u64, bool, Vec<u8>)>>);
+type Obs = (Vec<Option<Vec<u8>>>, Vec<Vec<(Vec<u8>, u64, bool, Vec<u8>)>>, Option<String>);
 
 fn observe(tree: &crate::Tree, reads: &[u64]) -> std::result::Result<Obs, String> {
 	use crate::HistoryOptions;
@@ -331,6 +331,28 @@ fn observe(tree: &crate::Tree, reads: &[u64]) -> std::result::Result<Obs, String
 			lists.push(out);
 		}
 	}
+	// a complete backward traversal lists what the complete forward traversal lists
+	// (versions of one key with EQUAL timestamps have no order the property fixes: compared as a group)
+	let norm = |l: &Vec<(Vec<u8>, u64, bool, Vec<u8>)>| -> Vec<(Vec<u8>, u64, bool, Vec<u8>)> {
+		let mut out = l.clone();
+		let mut i = 0;
+		while i < out.len() {
+			let mut j = i + 1;
+			while j < out.len() && out[j].0 == out[i].0 && out[j].1 == out[i].1 {
+				j += 1;
+			}
+			out[i..j].sort();
+			i = j;
+		}
+		out
+	};
+	let mut fwd_bwd: Option<String> = None;
+	for t in 0..2 {
+		if norm(&lists[2 * t]) != norm(&lists[2 * t + 1]) && fwd_bwd.is_none() {
+			let show = |l: &Vec<(Vec<u8>, u64, bool, Vec<u8>)>| l.iter().map(|e| format!("{}@{}", String::from_utf8_lossy(&e.0), e.1)).collect::<Vec<_>>();
+			fwd_bwd = Some(format!("history (tombstones={}): the backward traversal (seek_last, prev ...) lists {:?}, the forward traversal lists {:?}", t == 1, show(&lists[2 * t + 1]), show(&lists[2 * t])));
+		}
+	}
 	// the same listing restricted to timestamp windows (tombstones included, forward)
 	for (lo, hi) in [(50u64, 1000u64), (150, 1000), (100, 150), (150, 180), (0, 100)] {
 		let opts = HistoryOptions::new().with_tombstones(true).with_ts_range(lo, hi);
@@ -346,7 +368,7 @@ fn observe(tree: &crate::Tree, reads: &[u64]) -> std::result::Result<Obs, String
 		}
 		lists.push(out);
 	}
-	Ok((gets, lists))
+	Ok((gets, lists, fwd_bwd))
 }
 
 /// get_at answers under known finding F21: the version index holds ONE entry per (key, timestamp) - of the
@@ -530,6 +552,7 @@ async fn timetravel_enum_impl(maxlen: usize, name: &str) {
 				};
 				let last_flush = ops.iter().rposition(|o| *o == VOp::Flush).unwrap_or(0);
 				let mut f21_hit = false;
+				let mut fb_hit = false;
 				let mut judge = |stage: &str, gets: &Vec<Option<Vec<u8>>>, flushed_upto: usize| -> Option<String> {
 					if mask(gets) == mask(&want) {
 						return None;
@@ -551,6 +574,16 @@ async fn timetravel_enum_impl(maxlen: usize, name: &str) {
 					bad = Some(b);
 					break;
 				}
+				// forward and backward traversal must list the same; with the index ON and two writes sharing a timestamp
+				// a difference is a candidate for known finding F21 (the order / survival of equal-timestamp versions)
+				if let Some(m) = &o1.2 {
+					if index && dup_ts {
+						fb_hit = true;
+					} else {
+						bad = Some(format!("index={index} after the program: {m}"));
+						break;
+					}
+				}
 				per_index.push(o1.0.clone());
 				// (b) metamorphic: flush, compact, reopen
 				let mut stage = "flush";
@@ -568,6 +601,14 @@ async fn timetravel_enum_impl(maxlen: usize, name: &str) {
 					if let Some(b) = judge(&format!("after {stage}"), &o2.0, ops.len()) {
 						bad = Some(b);
 						break;
+					}
+					if let Some(m) = &o2.2 {
+						if index && dup_ts {
+							fb_hit = true;
+						} else {
+							bad = Some(format!("index={index} after {stage}: {m}"));
+							break;
+						}
 					}
 					if o2.1 != o_prev.1 && listing_changed.is_none() {
 						let i = (0..o2.1.len()).find(|&i| o2.1[i] != o_prev.1[i]).unwrap();
@@ -598,6 +639,8 @@ async fn timetravel_enum_impl(maxlen: usize, name: &str) {
 							Ok(o4) => {
 								if let Some(b) = judge("after reopen", &o4.0, ops.len()) {
 									bad = Some(b);
+								} else if o4.2.is_some() && !(index && dup_ts) {
+									bad = Some(format!("index={index} after reopen: {}", o4.2.clone().unwrap()));
 								} else if o4.1 != o_prev.1 && listing_changed.is_none() {
 									listing_changed = Some(format!("index={index}: history listing changed by reopen: sizes {:?} -> {:?}", o_prev.1.iter().map(|l| l.len()).collect::<Vec<_>>(), o4.1.iter().map(|l| l.len()).collect::<Vec<_>>()));
 								}
@@ -633,7 +676,7 @@ async fn timetravel_enum_impl(maxlen: usize, name: &str) {
 						break;
 					}
 				}
-				if f21_hit {
+				if f21_hit || fb_hit {
 					kf21 += 1;
 					if kf21_example.is_empty() {
 						kf21_example = format!("{{\"program_on_key_k\":\"{:?}\",\"mismatch\":\"index=true: get_at answers follow the one-entry-per-(key,timestamp) index model, not the property\"}}", ops);
